@@ -353,6 +353,17 @@ impl<'a> Ix<'a> {
                 }
             }
         }
+        // an ask that certainly entered the mailbox sits there until the actor takes it - whether or not its caller is still
+        // waiting (timed out, future dropped): the envelope is a queued message like any other
+        for op in x.msgs.iter() {
+            let o = &self.ops[op];
+            if o.kind.ask_family() && o.s < pos && self.certainly_accepted(o) {
+                let handled = self.henter.get(&o.uid).map(|h| h[0] < pos).unwrap_or(false);
+                if !handled {
+                    return true;
+                }
+            }
+        }
         for op in x.stops.iter() {
             let o = &self.ops[op];
             if let Some((e, Res::Ok(_), _)) = &o.end {
